@@ -284,8 +284,18 @@ macro_rules! drive {
         match $fin {
             1 => { $out.fin_ran = true; if let Some($x) = it.last() { let y = $conv; $out.fin_items.push(y); } }
             2 => { $out.fin_ran = true; $out.fin_count = it.count(); }
-            3 => { $out.fin_ran = true; if let Some($x) = it.nth(1) { let y = $conv; $out.fin_items.push(y); } if $forget { std::mem::forget(it); } }
-            4 => { $out.fin_ran = true; if let Some($x) = it.nth_back(1) { let y = $conv; $out.fin_items.push(y); } if $forget { std::mem::forget(it); } }
+            // nth / nth_back, then the iterator is used further from both ends (three slots, `none` where nothing came)
+            3 | 4 => {
+                $out.fin_ran = true;
+                let none = || Yield { k: None, v: None, kaddr: 0, vaddr: 0, none: true };
+                let a = if $fin == 3 { it.nth(1) } else { it.nth_back(1) };
+                $out.fin_items.push(match a { Some($x) => $conv, None => none() });
+                let b = if $fin == 3 { it.next() } else { it.next_back() };
+                $out.fin_items.push(match b { Some($x) => $conv, None => none() });
+                let c = if $fin == 3 { it.next_back() } else { it.next() };
+                $out.fin_items.push(match c { Some($x) => $conv, None => none() });
+                if $forget { std::mem::forget(it); }
+            }
             5 => { $out.fin_ran = true; $out.fin_hint = it.size_hint(); if $forget { std::mem::forget(it); } }
             // (a runaway traversal must not eat the machine: far more items than any cache here holds is a failure in itself)
             6 => { $out.fin_ran = true; let mut acc = Vec::new(); it.fold((), |_, $x| { let y = $conv; acc.push(y); if acc.len() > 200_000 { panic!("runaway iteration: fold yielded more than 200000 items"); } }); $out.fin_items = acc; }
